@@ -367,6 +367,7 @@ def wide_integers(run, i):
     klass = "beyond" if narrowed(RR.expected(decls))[1] else "within"
     check(run, decls, S.print_schema(decls), "wide-integers|%s|%d" % (klass, len(vals)))
     run.count("wide_integer_schemas_" + klass)
+    run.count("wide_integer_schemas")
 
 
 def run(run):
@@ -398,7 +399,7 @@ def run(run):
 
 
 def conclude(run):
-    run.require("wide_integer_schemas_within", "cli_encode_runs", "split_schema_reflections", "reflections_after_other_uses", "reflections", "records_faithful", "records_encoded", "records_round_tripped", "metas_checked",
+    run.require("wide_integer_schemas", "cli_encode_runs", "split_schema_reflections", "reflections_after_other_uses", "reflections", "records_faithful", "records_encoded", "records_round_tripped", "metas_checked",
                 "feature/impl:signal-block", "feature/param:range", "feature/param:unit", "feature/decl:service", "feature/impl:extension-field")
     feats = {k[8:]: v for k, v in run.counters.items() if k.startswith("feature/")}
     for k in [k for k in run.counters if k.startswith("feature/")]:
